@@ -7,7 +7,8 @@ unified_dataset() and in Dataset(rankings_cons), which is exactly the uncontroll
 depends on. Oracle: reference scorer on the spied start rankings.
 """
 from .. import gen, model
-from ..lib import build_dataset, build_scheme, canon_ranking, jsonable_ranking, uses_random
+from ..lib import (build_dataset, build_scheme, canon_ranking, jsonable_ranking, uses_random, canon_rankings, call,
+                   Element)
 from ..seed import digest
 from .common import Discard, run_alg, well_formed, dataset_tags
 
@@ -38,6 +39,13 @@ def gen_case(st, tier, env):
         else:
             a = {"alg": "BioConsert", "starters": gen.gen_starters(w)}
         calls.append({"alg": a, "one": k.choice([False, True]), "sched": gen.gen_sched(st.schedule)})
+
+    # history dimension: the algorithm instances are shared by all calls of the run and the Dataset object may be
+    # edited in place between two calls (anything cached on an instance or on the dataset must follow)
+    if k.random() < 0.3 and len(calls) >= 2:
+        at = w.randrange(1, len(calls))
+        calls.insert(at, {"mutate": w.choice(["remove_elements", "remove_empty", "remove_empty", "remove_rate"]),
+                          "pick": [w.randrange(64)], "rate": w.choice([0.0, 0.3, 0.5])})
     return {"dataset": ds, "scheme": scheme, "calls": calls, "dyadic": dy}
 
 
@@ -55,6 +63,22 @@ def run_case(case, ctx):
     slack = 1e-9 if case.get("dyadic", True) else 1e-6
     ctx.event("world", model.canon(mr), B, T)
     for c in case["calls"]:
+        if "mutate" in c:
+            univ = model.universe(mr)
+            if c["mutate"] == "remove_elements" and len(univ) > 2:
+                call(ds.remove_elements, {Element(univ[c["pick"][0] % len(univ)])})
+            elif c["mutate"] == "remove_rate":
+                call(ds.remove_elements_rate_presence_lower_than, c["rate"])
+            else:
+                call(ds.remove_empty_rankings)
+            mr = canon_rankings(ds.rankings)
+            elems = model.universe(mr)
+            tags = dataset_tags(mr, case["scheme"])
+            tags["after_mutation"] = c["mutate"]
+            ctx.probe("mutated_in_place")
+            ctx.event("mutate", c["mutate"], model.canon(mr))
+            pass
+            continue
         try:
             out = run_alg(c["alg"], ds, sc, c["one"], c["sched"], spy_nested=True)
         except Discard:
